@@ -385,8 +385,16 @@ def main(argv=None):
         procs.append((shard, subprocess.Popen(cmd, stdout=log, stderr=subprocess.STDOUT, cwd=VERIF), out_path, log))  # pylint: disable=consider-using-with
     results = []
     harness_errors = []
+    # a shard that does not come back (the library looping for ever under some generated case) makes the run inconclusive
+    # (exit 2), it is never reported as a violation: wall-clock time is not an oracle
+    deadline = t0 + (1500 if args.tier == 'quick' else 3 * 3600)
     for shard, proc, out_path, log in procs:
-        proc.wait()
+        try:
+            proc.wait(timeout=max(1.0, deadline - time.time()))
+        except subprocess.TimeoutExpired:
+            proc.kill()
+            proc.wait()
+            print(f'shard {shard} did not terminate before the deadline of the {args.tier} tier; killed', file=sys.stderr)
         log.close()
         if os.path.exists(out_path):
             with open(out_path, encoding='utf8') as fhandle:
